@@ -176,6 +176,10 @@ def _forward_ref(repo, ob, failure):
         (['<rect id="d" xy="#a|h" width="4" height="4"/>', '<rect surround="#d"/>', '<rect id="a" xy="10" wh="4"/>'], [2, 0, 1]),
         (['<rect id="b" x="0" y="0" width="10" height="10" dx="{{#z~w}}"/>', '<rect id="n" xy="#b|h 2" wh="2"/>', '<rect id="z" xy="50 50" wh="7"/>'], [2, 0, 1]),
         (['<circle id="b" cx="5" cy="5" r="5" dy="{{#z~h}}"/>', '<rect id="n" xy="#b|v 2" wh="2"/>', '<rect id="z" xy="50 50" wh="7"/>'], [2, 0, 1]),
+        (['<line id="z" start="#p" end="#q"/>', '<rect id="a" xy="#z|h 5" wh="10"/>', '<rect id="p" xy="20 20" wh="10"/>', '<rect id="q" xy="60 40" wh="10"/>'], [2, 3, 0, 1]),
+        (['<box id="z" cx="#y~cx" cy="#y~cy" width="30" height="30"/>', '<rect id="a" xy="#z|h 5" wh="10"/>', '<rect id="y" xy="100 100" wh="10"/>'], [2, 0, 1]),
+        (['<point id="z" cx="#y~cx" cy="#y~cy"/>', '<rect id="a" xy="#z|h 5" wh="10"/>', '<rect id="y" xy="100 100" wh="10"/>'], [2, 0, 1]),
+        (['<use href="#a" x="100"/>', '<rect id="a" xy="#b|h" wh="10"/>', '<rect id="b" xy="0" wh="10"/>'], [2, 1, 0]),
         (['<circle id="d" cxy="#a|v" r="3"/>', '<rect xy="#d|h" wh="2"/>', '<rect id="a" xy="10" wh="4"/>'], [2, 0, 1]),
         (['<line id="d" xy1="#a@br" x2="30" y2="30"/>', '<rect surround="#d"/>', '<rect id="a" xy="10" wh="4"/>'], [2, 0, 1]),
         (['<rect id="d" xy="#a|h" wh="4"/>', '<rect xy="#d|v" wh="2"/>', '<rect id="a" xy="10" wh="4"/>'], [2, 0, 1]),
@@ -1131,3 +1135,25 @@ def _clip_chain_depth(repo, ob, failure):
 
 
 GENERATORS.insert(0, ("C01.clip.terminates", _clip_chain_depth))
+
+
+def _use_and_referenced(repo, ob, failure):
+    """a <use> is counted where it is drawn (its own transform included); content of clipPath / mask / marker / pattern adds nothing"""
+    import re as _re
+    cases = [('<svg><defs><rect id="a" wh="10"/></defs><use href="#a" x="20" transform="translate(100 0)"/></svg>', "120 0 10 10"),
+             ('<svg><defs><rect id="a" wh="10"/></defs><use href="#a" x="5" transform="scale(3)"/></svg>', "15 0 30 30"),
+             ('<svg><clipPath id="c"><rect xy="0" wh="100"/></clipPath><rect xy="0" wh="10"/></svg>', "0 0 10 10"),
+             ('<svg><mask id="m"><rect xy="0" wh="100"/></mask><rect xy="0" wh="10"/></svg>', "0 0 10 10"),
+             ('<svg><use href="#a" x="100"/><rect id="a" xy="#b|h" wh="10"/><rect id="b" xy="0" wh="10"/></svg>', "0 0 120 10")]
+    for doc, want in cases:
+        r = run_svgdx(repo, doc, args=("--border", "0"))
+        if r["rc"] != 0:
+            continue
+        m = _re.search(r'viewBox="([^"]*)"', r["out"])
+        if not m or m.group(1) != want:
+            return {"input": doc, "args": ["--border", "0"], "observed": "viewBox=%r" % (m and m.group(1)), "expected": "viewBox=%r" % want}
+    return None
+
+
+GENERATORS.insert(0, ("C08.use.", _use_and_referenced))
+GENERATORS.insert(0, ("C08.container.", _use_and_referenced))
